@@ -198,6 +198,24 @@ class Interp:
                     return m
         return None
 
+    def ctor_assigned(self, cls):
+        """names assigned to `self` in __init__ / model_post_init / __post_init__ of the class and its bases"""
+        cache = self.__dict__.setdefault("_ctor_assigned", {})
+        key = id(cls)
+        if key not in cache:
+            names = set()
+            for st in cls.node.body:
+                if isinstance(st, ast.FunctionDef) and st.name in ("__init__", "model_post_init", "__post_init__") and st.args.args:
+                    me = st.args.args[0].arg
+                    for n in ast.walk(st):
+                        if isinstance(n, ast.Attribute) and isinstance(n.ctx, ast.Store) and isinstance(n.value, ast.Name) and n.value.id == me:
+                            names.add(n.attr)
+            for b in self.class_bases(cls):
+                if isinstance(b, SClass):
+                    names |= self.ctor_assigned(b)
+            cache[key] = names
+        return cache[key]
+
     def find_class_attr(self, cls, name):
         for st in cls.node.body:
             if isinstance(st, ast.Assign):
@@ -1172,6 +1190,10 @@ class Interp:
                     if "classmethod" in decos:
                         return m.bind(obj.cls)
                     return m.bind(obj)
+                if getattr(obj, "ctor_bypassed", False) and name in self.ctor_assigned(obj.cls):
+                    # the harness built this object without its constructor and did not supply an attribute the constructor computes (on THIS tree): the
+                    # harness is incomplete for this code -- undecided, not an AttributeError / stale class default of the program
+                    raise Unsupported(f"attribute '{name}' is assigned by the constructor of {obj.cls.qualname}, which the harness bypasses and does not supply", node)
                 ok, v = self.find_class_attr(obj.cls, name)
                 if ok:
                     return v
